@@ -1,16 +1,10 @@
 # C08 — reading is invariant under equivalent re-encoding and ignores unknown members.
 import common, schema, histgen, refcbor, cborgen
-THEOREMS = ["C08_refines", "C08_invariance", "C08_encodings_wellformed", "C08_member_order", "C08_unknown_members", "C08_bigkey_refuted", "C08_canonical_is_an_encoding", "C08_file_invariance", "C08_exporter_output_in_family", "C08_nonvacuous"]
+THEOREMS = ["C08_refines", "C08_invariance", "C08_encodings_wellformed", "C08_member_order", "C08_unknown_members", "C08_wide_keys_clamped", "C08_no_key_at_the_ends", "C08_wide_keys_ignored", "C08_canonical_is_an_encoding", "C08_file_invariance", "C08_exporter_output_in_family", "C08_nonvacuous"]
 EXTRA_PROPERTY_FILES = ("Properties_format",)   # obligations over the regenerated Gen_format.v (translator/format.py)
 NAMES = ["FilePreamble", "BlockParameters", "StorageParameters", "CollectionParameters", "QueryResponseSignature", "RR", "MalformedMessageData",
          "BlockStatistics", "QueryResponse", "AddressEventCount", "MalformedMessage", "ClassType", "Question", "ResponseProcessingData",
          "QueryResponseExtended", "BlockPreamble", "IndexListItem", "Timestamp", "StorageHints"]
-
-def match_known(case, why, known):
-    key = case.get("finding_key")
-    for k in known:
-        if key and k.get("key") == key: return k
-    return None
 
 def reencode_file(sch, data, rng):
     """an equivalent file: same preamble and blocks (independent parse), every item re-encoded with random head widths,
@@ -49,7 +43,7 @@ def run(ctx):
             try: re = reencode_file(sch, data, rng)
             except Exception: continue
             fcases.append({"id": "%s_%d" % (cid, k), "script": ["F read " + data.hex(), "M sep", "F read " + re.hex()], "expect": None, "meta": {"kind": "file"}})
-    # (c) keys outside the int64 range (known finding): 2^64-1 is read as -1 (asn), -2^64 as 0 (time offset)
+    # (c) keys outside the int64 range (defect F15, repaired): 2^64-1 used to be read as -1 (asn), -2^64 as 0 (time offset); every structure, both keys
     qr = sch["QueryResponse"]
     base = [5, None, 53] + [None] * 13
     for key_bytes, name in ((bytes.fromhex("1bffffffffffffffff"), "2^64-1"), (bytes.fromhex("3bffffffffffffffff"), "-2^64")):
@@ -57,8 +51,18 @@ def run(ctx):
         n = good[0] & 31
         forged = bytes([0xa0 | (n + 1)]) + good[1:] + key_bytes + b"\x00"
         c = {"id": "k" + name, "script": ["S r QueryResponse " + forged.hex()], "expect": ["val " + schema.show(qr, base), "rest -"],
-             "what": "QueryResponse with an extra member whose unknown key is %s" % name, "meta": {"kind": "bigkey"}, "finding_key": "unknown-key-outside-int64"}
+             "what": "QueryResponse with an extra member whose unknown key is %s" % name, "meta": {"kind": "bigkey"}}
         cases.append(c)
+    for i, nm in enumerate(NAMES):
+        t = sch[nm]
+        if t[0] != "M": continue
+        v = schema.gen_val(t, rng, small=True)
+        good = schema.enc(t, v)
+        if good[0] & 0xe0 != 0xa0 or (good[0] & 31) > 21: continue
+        extra = bytes.fromhex("1bffffffffffffffff") + cborgen.gen_item(rng, 1)["b"] + bytes.fromhex("3bffffffffffffffff") + cborgen.gen_item(rng, 1)["b"]
+        forged = bytes([good[0] + 2]) + extra + good[1:]
+        cases.append({"id": "kk%d" % i, "script": ["S r %s %s" % (nm, forged.hex())], "expect": ["val " + schema.show(t, v), "rest -"],
+                      "what": "%s with two extra members whose unknown keys are 2^64-1 and -2^64" % nm, "meta": {"kind": "bigkey"}})
     d1, f1 = common.run_expect(ctx, cases, batch=60)
     d2, f2 = common.run_expect(ctx, fcases, batch=6)
     # file level oracle: the dump of the re-encoded file equals the dump of the original
@@ -75,5 +79,5 @@ def run(ctx):
         "(a) values of 19 structures re-encoded by an independent encoder with random head widths, definite/indefinite arrays and maps, chunked "
         "strings, permuted members and unknown members (keys in the int64 range carrying random well-formed items: tagged, floats, nested) and "
         "read by the library: the decoded members must equal the value; (b) exporter-produced files re-encoded the same way at every level: the "
-        "reader's record dump must equal that of the original; (c) keys outside the int64 range (known finding)", d1 + d2, f1 + f2)
+        "reader's record dump must equal that of the original; (c) unknown keys outside the int64 range (2^64-1, -2^64) in every structure", d1 + d2, f1 + f2)
     return {"diffs": d1 + d2, "fails": f1 + f2, "to_script": lambda c: common.case_script(c)}
